@@ -246,11 +246,11 @@ fn variants(t: &Template, thorough: bool) -> Vec<Variant> {
                 continue;
             }
             for cg in [Codegen::Table, Codegen::Ascent] {
-                if cg == Codegen::Ascent && !thorough && !matches!(p.0, "v" | "e" | "error" | "__0" | "__sym0") {
+                if cg == Codegen::Ascent && !thorough && !matches!(p.0, "v" | "e" | "__0") {
                     continue;
                 }
                 // quick: the unprefixed names and a spread of the prefixed ones for every slot
-                if !thorough && p.0.starts_with("__") && !matches!(p.0, "__0" | "__sym0" | "__lookahead" | "__symbols" | "__" | "__Symbol" | "__parse__Start" | "__TOKEN") {
+                if !thorough && p.0.starts_with("__") && !matches!(p.0, "__0" | "__sym0" | "__" | "__Symbol" | "__parse__Start") {
                     continue;
                 }
                 let mut names = reference.clone();
@@ -267,7 +267,7 @@ fn variants(t: &Template, thorough: bool) -> Vec<Variant> {
                 continue;
             }
             // quick: pairs that involve a grammar parameter, the macro name or the start symbol
-            if !thorough && !matches!(*s1, "gp" | "gq" | "L" | "S") {
+            if !thorough && !matches!(*s1, "gp" | "gq") {
                 continue;
             }
             for p1 in &short {
@@ -290,7 +290,7 @@ fn variants(t: &Template, thorough: bool) -> Vec<Variant> {
     // (3) rotations: all slots renamed at once
     let tpool: Vec<&str> = pool.iter().map(|p| p.0).collect();
     let vpool: Vec<&str> = pool.iter().filter(|p| p.1).map(|p| p.0).collect();
-    for r in 0..(if thorough { tpool.len() } else { 4 }) {
+    for r in 0..(if thorough { tpool.len() } else { 3 }) {
         for cg in [Codegen::Table, Codegen::Ascent] {
             let mut names: BTreeMap<&'static str, String> = BTreeMap::new();
             let mut used: Vec<String> = vec![];
